@@ -10,7 +10,7 @@ import (
 	"github.com/google/pprof/verifh/vk"
 )
 
-var valueMenu = []string{"true", "false", "7", "0", "-3", "0.25", "0.123456789", "0.015625001", "1e-12", "a", "x y&c=d%+#ü", "cum", "lines", "k", ""}
+var valueMenu = []string{"true", "false", "7", "0", "-3", "0.25", "0.123456789", "0.015625001", "1e-12", "a", " a", "a ", "operator new ", "x y&c=d%+#ü", "cum", "lines", "k", ""}
 
 // urlRoundTrip: for every saved config field and every value of the menu that
 // the option parser accepts (and every pair of fields in the thorough tier):
@@ -79,6 +79,15 @@ func urlRoundTrip(c *vk.Ctx) {
 		if err != nil || stored["A"] == nil {
 			c.Violationf("url-roundtrip/not-stored", w, "configuration A is not in the settings file: %v", err)
 			return
+		}
+		// a text option (an option that takes any text as it is) is stored byte for byte as it was given:
+		// blanks at either end are part of a regular expression
+		for _, s := range set {
+			if viaURL && s.f[1] != "" && s.v != "" && textField(s.f[0]) {
+				if got := stored["A"][s.f[0]]; got != s.v {
+					c.Violationf("url-to-config/text-altered/"+s.f[0], w, "field %s given as %q, stored as %q", s.f[0], s.v, got)
+				}
+			}
 		}
 		for _, f := range fields {
 			if f[2] != "true" {
@@ -225,4 +234,25 @@ func restoreFromOtherView(c *vk.Ctx, fields [][4]string) {
 			}
 		}
 	}
+}
+
+// textFields are the options that take any text: those that accept, unchanged, a
+// value no number, boolean or choice could be.
+var textFields map[string]bool
+
+func textField(name string) bool {
+	if textFields == nil {
+		textFields = map[string]bool{}
+		for _, f := range driver.VerifConfigFields() {
+			driver.VerifReset()
+			const probe = "zz(q)?"
+			if driver.VerifConfigure(f[0], probe) == nil {
+				if got, _ := driver.VerifConfigGet(f[0]); got == probe {
+					textFields[f[0]] = true
+				}
+			}
+		}
+		driver.VerifReset()
+	}
+	return textFields[name]
 }
